@@ -275,8 +275,14 @@ def run_tissue(ck, case, reqs, pending):
             ck.dist["min_correlation"] = min(ck.dist.get("min_correlation", 1.0), corr)
             ck.count("correlation_checked")
             if corr < 0.9:
+                # finding KF5: the right-hand side is tension x *turning* (not curvature); when the internal interfaces differ
+                # strongly in length the inferred pressures correlate with the Young-Laplace ones only at 0.75..0.9
+                Ls = [sum(math.hypot(frame.vertices[a].x - frame.vertices[b].x, frame.vertices[a].y - frame.vertices[b].y)
+                          for a, b in zip(obs["earr"][i], obs["earr"][i][1:])) for i in internal]
+                ratio = max(Ls) / min(Ls)
+                sig = "weak-pressure-correlation-unequal-interface-lengths" if (corr >= 0.75 and ratio >= 8.0) else None
                 ck.fail("on equilibrium tissues with >=5 points per interface the pressures correlate at 0.9 or better with the analytic Young-Laplace pressures",
-                        f"correlation {corr:.4f} ({len(used)} cells, tensions {case['tensions']})", case, signature=None)
+                        f"correlation {corr:.4f} ({len(used)} cells, tensions {case['tensions']}, longest/shortest interface {ratio:.1f})", case, signature=sig)
     # ---------------- K
     reqs.append({"op": "pmatrix", "mesh": mesh_json(frame.vertices, frame.edges, frame.cells), "tension": [rat(t) for t in tens], "curv": [rat(c) for c in curv]})
     pending.append(("pm", case, (L, rhs, removed, [int(c) for c in cells], internal, [len(obs["earr"][i]) for i in internal])))
